@@ -79,9 +79,15 @@ Error:
 }
 
 static enum DeviceState
+raw_stop(struct Storage* self_);
+
+static enum DeviceState
 raw_start(struct Storage* self_)
 {
     struct Raw* self = containerof(self_, struct Raw, writer);
+    // A device that is re-configured while running is started again without a
+    // stop in between: don't lose the descriptor that is still open.
+    raw_stop(self_);
     CHECK(file_create(
       &self->file, self->properties.uri.str, self->properties.uri.nbytes));
     self->is_open = 1;
